@@ -40,7 +40,7 @@ pub fn run(ctx: &mut Ctx) {
     let (mut is, names) = new_iset();
     let cache = sorted_cache(&is);
     let judge = Judge { frame: true, reference: true };
-    let nseq = ctx.n(12000, 400000);
+    let nseq = ctx.n(12000, 2000000);
     let i = |n: &str| SItem::Instr(n.to_string());
     for k in 0..nseq as u64 {
         if !ctx.mine(k) {
